@@ -151,6 +151,12 @@ def _chunk(args):
     return lo, keys, forms, viols
 
 
+def _sweep(rng):
+    silence_labtech()
+    lo, hi = rng
+    return lo, [A.Foo(p=i).cache_key for i in range(lo, hi)]
+
+
 def run(tier: str, seed: int) -> Result:
     silence_labtech()
     items = space(tier)
@@ -181,6 +187,18 @@ def run(tier: str, seed: int) -> Result:
                 key = f'collision:{la[0]}' if la else 'collision'
                 viols.append(Violation('C07', key, f'distinct tasks share key {k}: ' + ' vs '.join(item_desc(items[i]) for i in idxs[:3]),
                                        {'items': [repr(items[i]) for i in idxs[:3]], 'tier': tier}, size=min(tree_size(items[i][1]) for i in idxs)))
+        # key entropy: a long run of tasks differing in one small integer (a shortened or weak
+        # hash would collide here long before it does on the structured trees above)
+        sweep_n = 200_000 if tier == 'quick' else 1_000_000
+        seen_sweep: dict = {}
+        for lo, ks in pmap(_sweep, [(lo, min(lo + 25_000, sweep_n)) for lo in range(0, sweep_n, 25_000)]):
+            for off, k in enumerate(ks):
+                evals += 1
+                if k in seen_sweep:
+                    viols.append(Violation('C07', 'collision:int-sweep', f'Foo(p={seen_sweep[k]}) and Foo(p={lo + off}) share key {k}',
+                                           {'tier': tier, 'a': seen_sweep[k], 'b': lo + off}, size=5))
+                    break
+                seen_sweep[k] = lo + off
         # fresh interpreters with other hash seeds
         seeds = (1,) if tier == 'quick' else (1, 2, 3)
         procs = []
@@ -210,7 +228,7 @@ def run(tier: str, seed: int) -> Result:
         'distinct_nontrivial': distinct_forms,
         'rule': ('every parameter tree (scalars incl. edge floats/strings, 4 enum classes, list/dict nesting, nested tasks from two '
                  f'modules) up to the tier bound x 7 outer task types; tier={tier}; distinct_nontrivial = distinct typed canonical forms; '
-                 'each item: rebuild, alt spelling, pickle x2, serialize->deserialize, LocalStorage.exists, fresh interpreters'),
+                 'each item: rebuild, alt spelling, pickle x2, serialize->deserialize, LocalStorage.exists, fresh interpreters; plus an integer sweep Foo(p=0..N) for key entropy'),
         'samples': [item_desc(items[i]) + ' -> ' + keys0[i] for i in (0, len(items) // 3, len(items) // 2, len(items) - 1)],
         'distinct_keys': len(by_key),
         'fresh_interpreter_seeds': list(seeds),
